@@ -130,12 +130,17 @@ def seeds(pid=None, workers=3):
     known = {k['obligation_id'] for k in load_known() if k.get('status') == 'open' and 'obligation_id' in k}
     root = os.path.join(VERIF, 'seeded')
     dirs = []
+    extra = []
     for d in sorted(os.listdir(root)):
         mp = os.path.join(root, d, 'meta.json')
         if os.path.exists(mp):
             m = json.load(open(mp))
-            if pid is None or m.get('property') == pid or pid in m.get('detected_by', []):
+            # per property: the changes seeded *for* this property, plus (capped) those it was seen to alarm on as well
+            if pid is None or m.get('property') == pid:
                 dirs.append(os.path.join(root, d))
+            elif pid in m.get('detected_by', []):
+                extra.append(os.path.join(root, d))
+    dirs += extra[:6]
     with ThreadPoolExecutor(max_workers=workers) as ex:
         return list(ex.map(lambda d: run_seed(d, known), dirs))
 
